@@ -151,6 +151,14 @@ func Note(c bool, label string) {
 }
 func Reach(label string) { Out.Reached = append(Out.Reached, label) }
 
+// Bound returns the quick or the thorough value of a bound, according to $VERIF_TIER.
+func Bound(quick, thorough int) int {
+	if os.Getenv("VERIF_TIER") == "thorough" {
+		return thorough
+	}
+	return quick
+}
+
 // Symbolic reports whether the harness runs under the symbolic executor.
 func Symbolic() bool { return false }
 
